@@ -53,20 +53,34 @@ impl CalendarTimeBucketer {
         }
     }
 
+    /// Resolve a local wall-clock bucket start to an instant. Around DST transitions a local
+    /// time can exist twice (take the first occurrence: the unit starts there) or not at all
+    /// (the unit starts at the first local time after the gap).
+    fn resolve_local<T: TimeZone>(naive: chrono::NaiveDateTime, tz: &T) -> DateTime<T> {
+        let mut candidate = naive;
+        for _ in 0..=24 {
+            match candidate.and_local_timezone(tz.clone()) {
+                chrono::LocalResult::Single(dt) => return dt,
+                chrono::LocalResult::Ambiguous(first, _) => return first,
+                chrono::LocalResult::None => candidate += chrono::Duration::minutes(15),
+            }
+        }
+        tz.from_utc_datetime(&naive)
+    }
+
     fn bucket_hour<T: TimeZone>(&self, dt: DateTime<T>) -> DateTime<T> {
-        dt.date_naive()
-            .and_hms_opt(dt.hour(), 0, 0)
-            .unwrap()
-            .and_local_timezone(dt.timezone())
-            .unwrap()
+        // Stay on the instant's own offset: the local hour label may be ambiguous or skipped.
+        let into_hour = (dt.minute() * 60 + dt.second()) as i64;
+        dt.clone()
+            - chrono::Duration::seconds(into_hour)
+            - chrono::Duration::nanoseconds(dt.nanosecond() as i64)
     }
 
     fn bucket_day<T: TimeZone>(&self, dt: DateTime<T>) -> DateTime<T> {
-        dt.date_naive()
-            .and_hms_opt(0, 0, 0)
-            .unwrap()
-            .and_local_timezone(dt.timezone())
-            .unwrap()
+        Self::resolve_local(
+            dt.date_naive().and_hms_opt(0, 0, 0).unwrap(),
+            &dt.timezone(),
+        )
     }
 
     fn bucket_week<T: TimeZone>(&self, dt: DateTime<T>) -> DateTime<T> {
@@ -75,33 +89,22 @@ impl CalendarTimeBucketer {
             % 7;
 
         let week_start = dt.date_naive() - chrono::Duration::days(days_since_week_start as i64);
-        week_start
-            .and_hms_opt(0, 0, 0)
-            .unwrap()
-            .and_local_timezone(dt.timezone())
-            .unwrap()
+        Self::resolve_local(week_start.and_hms_opt(0, 0, 0).unwrap(), &dt.timezone())
     }
 
     fn bucket_month<T: TimeZone>(&self, dt: DateTime<T>) -> DateTime<T> {
-        dt.date_naive()
-            .with_day(1)
-            .unwrap()
-            .and_hms_opt(0, 0, 0)
-            .unwrap()
-            .and_local_timezone(dt.timezone())
-            .unwrap()
+        let first = dt.date_naive().with_day(1).unwrap();
+        Self::resolve_local(first.and_hms_opt(0, 0, 0).unwrap(), &dt.timezone())
     }
 
     fn bucket_year<T: TimeZone>(&self, dt: DateTime<T>) -> DateTime<T> {
-        dt.date_naive()
+        let first = dt
+            .date_naive()
             .with_month(1)
             .unwrap()
             .with_day(1)
-            .unwrap()
-            .and_hms_opt(0, 0, 0)
-            .unwrap()
-            .and_local_timezone(dt.timezone())
-            .unwrap()
+            .unwrap();
+        Self::resolve_local(first.and_hms_opt(0, 0, 0).unwrap(), &dt.timezone())
     }
 }
 
